@@ -287,11 +287,11 @@ def asPathUp : Nat → Bytes → Bytes → Option Bytes
   | _, [_], _ => none
   | 0, _, _ => none
   | fuel + 1, t :: c :: rest, acc =>
-      if !segTypeOk t then none
+      if !segTypeOk t || c == 0 then none
       else if rest.length < c * 2 then none
       else asPathUp fuel (rest.drop (c * 2)) (acc ++ [t, c] ++ widen (rest.take (c * 2)))
 
-/-- four-octet AS_PATH / AS4_PATH segment validation; `nz` = a zero count is an error (AS4_PATH) -/
+/-- four-octet AS_PATH / AS4_PATH segment validation; `nz` = a zero count is an error (RFC 7606 §7.2) -/
 def asPathOk (nz : Bool) : Nat → Bytes → Bool
   | _, [] => true
   | _, [_] => false
@@ -312,7 +312,7 @@ def decU32 (data : Bytes) (len : Nat) : Option AttrData :=
 
 def decAsPath (data : Bytes) (two : Bool) : Option AttrData :=
   if two then (asPathUp (data.length + 1) data []).map .bin
-  else if asPathOk false (data.length + 1) data then some (.bin data) else none
+  else if asPathOk true (data.length + 1) data then some (.bin data) else none
 
 def decAggregator (data : Bytes) (len : Nat) : Option AttrData :=
   if len ≠ 6 ∧ len ≠ 8 then none
@@ -420,24 +420,26 @@ def countHops (bin : Bytes) : Nat → Nat → Nat → Out Nat
         countHops bin fuel (pos + 2 + c * 4) count
       else .ok count
 
-/-- `as_path_take_prefix` -/
+/-- `as_path_take_prefix`: `while pos < bin.len() && (n > 0 || confed(bin[pos]))` -/
 def takePrefix (bin : Bytes) : Nat → Nat → Nat → Bytes → Out Bytes
   | 0, _, _, _ => .panic
   | fuel + 1, n, pos, out =>
-      if n > 0 ∧ pos < bin.length then do
+      if pos < bin.length then do
         let t ← rd8 bin pos
-        let c ← rd8 bin (pos + 1)
-        let segEnd := pos + 2 + c * 4
-        if t = 2 then do
-          let take := min c n
-          let d ← slice bin (pos + 2) (pos + 2 + take * 4)
-          takePrefix bin fuel (n - take) segEnd (out ++ [t, take % 256] ++ d)
-        else if t = 1 then do
-          let d ← slice bin pos segEnd
-          takePrefix bin fuel (n - 1) segEnd (out ++ d)
-        else do
-          let d ← slice bin pos segEnd
-          takePrefix bin fuel n segEnd (out ++ d)
+        if n > 0 ∨ t = 3 ∨ t = 4 then do
+          let c ← rd8 bin (pos + 1)
+          let segEnd := pos + 2 + c * 4
+          if t = 2 then do
+            let take := min c n
+            let d ← slice bin (pos + 2) (pos + 2 + take * 4)
+            takePrefix bin fuel (n - take) segEnd (out ++ [t, take % 256] ++ d)
+          else if t = 1 then do
+            let d ← slice bin pos segEnd
+            takePrefix bin fuel (n - 1) segEnd (out ++ d)
+          else do
+            let d ← slice bin pos segEnd
+            takePrefix bin fuel n segEnd (out ++ d)
+        else .ok out
       else .ok out
 
 /-- `as_path_reconcile` -/
@@ -488,7 +490,7 @@ def reconcileAgg (as4Agg : Option Attr) (attrs : List Attr) : Out (Bool × List 
       let asn ← aggregatorAsn agg
       if asn = 23456 then do
         let bin ← binaryUnwrap a4
-        let attrs' ← mapFirst 7 (fun _ => .ok ⟨7, 0xc0, .bin bin⟩) attrs
+        let attrs' ← mapFirst 7 (fun agg => .ok ⟨agg.code, agg.flags, .bin bin⟩) attrs
         .ok (false, attrs')
       else .ok (true, attrs)
   | _, _ => .ok (false, attrs)
@@ -502,7 +504,7 @@ def reconcilePath (as4Path : Option Attr) (attrs : List Attr) : Out (List Attr) 
         let p ← binaryUnwrap ap
         let p4 ← binaryUnwrap a4
         let m ← asPathReconcile p p4
-        .ok ⟨2, 0x40, .bin m⟩) attrs
+        .ok ⟨ap.code, ap.flags, .bin m⟩) attrs
 
 def reconcileAs4 (attrs : List Attr) : Out (List Attr) :=
   let r1 := removeFirst 17 attrs
@@ -636,6 +638,11 @@ def parseMpReach (dec : HypDec) (c : Codec) (b : Bytes) : Out (Nat × List PNlri
             else if nhl = 12 ∨ nhl = 24 then do
               let d ← slice b (4 + 8) (4 + nhl)
               .ok (nhFromBytes d)
+            else if nhl = 48 then do
+              -- VPN-IPv6 global + link-local, an RD before each
+              let d1 ← slice b (4 + 8) (4 + 24)
+              let d2 ← slice b (4 + 32) (4 + 48)
+              .ok (nhFromBytes (d1 ++ d2))
             else .err eOptAttr : Out (Option Bytes))
           let _ ← rd8 b (4 + nhl)
           let rest ← slice b (5 + nhl) b.length
